@@ -78,3 +78,4 @@ def check(ctx, rep):
         keep = KeepOnly(rep, ('/flag-exit-only-when-drained',), 'R4')
         Q2.rule_run_exit(qm, keep, Q2.rule_stop(qm, keep))
     S.rule_D3(ctx, rep, methods=('flush',))
+    S.rule_forwarding_impls(ctx, rep, 'F1', methods=('flush',))
